@@ -129,3 +129,63 @@ pub fn text_target(data: &[u8]) {
         }
     }
 }
+
+/// C15: arbitrary bytes as a Gravsoft text grid (first byte even) or an NTv2 binary grid
+/// (first byte odd). Decoding yields Err or a grid whose queries return; never a panic.
+/// Hangs and unbounded allocation are caught by libFuzzer itself (-timeout, -malloc_limit_mb).
+pub fn grid_target(data: &[u8]) {
+    let _ = state();
+    if data.len() < 2 {
+        return;
+    }
+    let ntv2 = data[0] % 2 == 1;
+    let bytes = &data[1..];
+    let r = guard(|| -> Option<(String, String)> {
+        let grid: Box<dyn Grid> = if ntv2 {
+            match Ntv2Grid::new(bytes) {
+                Ok(g) => Box::new(g),
+                Err(_) => return None,
+            }
+        } else {
+            match BaseGrid::gravsoft(bytes) {
+                Ok(g) => Box::new(g),
+                Err(_) => return None,
+            }
+        };
+        // query points: fixed specials plus a lattice derived from the tail of the input
+        let mut qs: Vec<[f64; 2]> = vec![
+            [0.0, 0.0], [0.2, 0.97], [-3.0, 1.5], [f64::NAN, 0.5], [0.5, f64::NAN], [f64::INFINITY, 0.0],
+            [1.0e300, -1.0e300], [3.2, 1.6], [-3.2, -1.6],
+        ];
+        for w in bytes.rchunks(2).take(24) {
+            let lon = (w[0] as f64 - 128.0) / 128.0 * std::f64::consts::PI;
+            let lat = (*w.get(1).unwrap_or(&0) as f64 - 128.0) / 256.0 * std::f64::consts::PI;
+            qs.push([lon, lat]);
+        }
+        let mut hits = 0usize;
+        for q in qs {
+            let c = Coor4D::raw(q[0], q[1], 0.0, 0.0);
+            for margin in [0.0, 0.5] {
+                let inside = grid.contains(&c, margin);
+                let v = grid.at(&c, margin);
+                if v.is_some() {
+                    hits += 1;
+                }
+                if inside && v.is_none() && margin == 0.5 && !ntv2 {
+                    // BaseGrid: `at` documents containment in the sense of `contains`
+                    return Some(("contains-but-no-value".to_string(), format!("contains({q:?}, {margin}) is true but at() is None")));
+                }
+            }
+        }
+        let _ = (grid.bands(), hits);
+        None
+    });
+    match r {
+        Ok(None) => {}
+        Ok(Some((key, msg))) => violation("C15", &key, &msg),
+        Err(p) => {
+            let key = format!("panic@{}", p.sig());
+            violation("C15", &key, &format!("panic on {} grid bytes ({} bytes): {} at {}:{}", if ntv2 { "NTv2" } else { "Gravsoft" }, bytes.len(), p.msg, p.file, p.line));
+        }
+    }
+}
